@@ -33,8 +33,8 @@ comparisons of $x with 2 (thorough 8) typed columns, a two-parameter text (thoro
 types), coalesce($x, column) and bare columns as raw_sql() expressions; entry points quick: raw_sql() in
 genif/where/genexpr/order_by queries, Database.select, select_by_sql on real SQLite, a leaner set
 (genif, genexpr, Database.select, select_by_sql) on PostgreSQL;
-thorough: all 6 raw_sql() query forms, select/get/exists/execute, select_by_sql/get_by_sql on SQLite,
-SQLite-named, PostgreSQL, MySQL, Oracle. Enumerated: every ORDERED PAIR of items of the same database
+thorough: all 6 raw_sql() query forms, select/get/exists/execute, select_by_sql/get_by_sql on SQLite
+and PostgreSQL, a medium set (the quick SQLite set + Database.execute) on SQLite-named, MySQL, Oracle. Enumerated: every ORDERED PAIR of items of the same database
 (thorough: + every ordered pair of a cross-database subset; + every ordered TRIPLE of the items of one
 call site = same entry point, database and SQL text, on SQLite and PostgreSQL). Oracle: what the last
 call sent to the driver (statement text, the values WITH their Python types), its exception class or
@@ -745,19 +745,37 @@ def typed_items(quick):
                 for vy in (ys if '$y' in fr else ('None',)):
                     for rt in rts: out.append(('T.%s:%s' % (kind, d), (fr, vx, vy, rt), 'typed'))
     for d in (T_DBS_QUICK if quick else T_DBS_ALL):
-        lean = quick and d != 'sqlite'      # quick: the full set on the real engine, a leaner one on PostgreSQL
-        add('rawq.genif', d, T_COND[:1] if lean else T_COND[:2] if quick else T_COND[:5], V)
-        if not quick: add('rawq.genif', d, T_COND[5:], TV_QUICK)
-        if not quick: add('rawq.genif', d, (T_TWO,), TV_TWO, TV_TWO)
-        for fm in () if lean else ('where',) if quick else ('where', 'lamsel', 'filter'):
-            add('rawq.' + fm, d, T_COND[:1], V)
-        add('rawq.genexpr', d, T_EXPR[:1] if quick else T_EXPR, V)
-        add('rawq.genexpr', d, T_COL[:2] if quick else T_COL, ('None',), rts=R)
-        add('rawq.genexpr', d, T_EXPR[:1], ('int', 'str'), rts=R[1:])
-        if not lean: add('rawq.order_by', d, T_EXPR[1:], V)
-        add('db.select', d, T_COND[:1] if quick else T_COND[:2], V)
-        add('E.select_by_sql', d, T_COND[:1] if quick else T_COND[:2], V)
-        if not quick:
+        if quick and d == 'sqlite' or not quick and d not in T_DBS_QUICK:
+            # medium set: quick on the real engine; thorough on SQLite-named, MySQL, Oracle
+            add('rawq.genif', d, T_COND[:2], V)
+            add('rawq.where', d, T_COND[:1], V)
+            add('rawq.genexpr', d, T_EXPR[:1], V)
+            add('rawq.genexpr', d, T_COL[:2], ('None',), rts=R)
+            add('rawq.genexpr', d, T_EXPR[:1], ('int', 'str'), rts=R[1:])
+            add('rawq.order_by', d, T_EXPR[1:], V)
+            add('db.select', d, T_COND[:1], V)
+            add('E.select_by_sql', d, T_COND[:1], V)
+            if not quick: add('db.execute', d, T_COND[:1], V)
+        elif quick:
+            # lean set: quick on PostgreSQL
+            add('rawq.genif', d, T_COND[:1], V)
+            add('rawq.genexpr', d, T_EXPR[:1], V)
+            add('rawq.genexpr', d, T_COL[:2], ('None',), rts=R)
+            add('rawq.genexpr', d, T_EXPR[:1], ('int', 'str'), rts=R[1:])
+            add('db.select', d, T_COND[:1], V)
+            add('E.select_by_sql', d, T_COND[:1], V)
+        else:
+            # full set: thorough on the real engine and PostgreSQL
+            add('rawq.genif', d, T_COND[:5], V)
+            add('rawq.genif', d, T_COND[5:], TV_QUICK)
+            add('rawq.genif', d, (T_TWO,), TV_TWO, TV_TWO)
+            for fm in ('where', 'lamsel', 'filter'): add('rawq.' + fm, d, T_COND[:1], V)
+            add('rawq.genexpr', d, T_EXPR, V)
+            add('rawq.genexpr', d, T_COL, ('None',), rts=R)
+            add('rawq.genexpr', d, T_EXPR[:1], ('int', 'str'), rts=R[1:])
+            add('rawq.order_by', d, T_EXPR[1:], V)
+            add('db.select', d, T_COND[:2], V)
+            add('E.select_by_sql', d, T_COND[:2], V)
             for m in ('get', 'exists', 'execute'): add('db.' + m, d, T_COND[:1], V)
             add('E.get_by_sql', d, T_COND[:1], V)
             add('db.select', d, (T_TWO,), TV_TWO[:4], TV_TWO[:4])
@@ -768,13 +786,14 @@ def t_site(item): return (item[0], item[1][0])
 
 def typed_core(items, quick):
     """items whose cold reference is taken from a pristine fork: per (entry point, database) the first
-    fragment with every value / every result type (quick: the real SQLite database and PostgreSQL genif)."""
+    fragment with every value / every result type on the real SQLite database (thorough: and PostgreSQL),
+    genif only on the other databases."""
     first = {}
     for it in items: first.setdefault(it[0], it[1][0])
     keep = []
     for i, it in enumerate(items):
         if it[1][0] not in (first[it[0]], T_COL[0]): continue
-        if quick and not (t_db(it) == 'sqlite' or it[0].startswith('T.rawq.genif')): continue
+        if not it[0].startswith('T.rawq.genif') and t_db(it) != 'sqlite' and (quick or t_db(it) != 'pg'): continue
         keep.append(i)
     return keep
 
